@@ -267,7 +267,7 @@ def rule_file_checkers(ctx):
         if good:
             te = [n for n, gd in guard_edges_on_call(b, isdir[0]) if gd.truth() is True]
             for e in te:
-                seen = b.reach([e], avoid=inf)
+                _av, seen = b.refine_from(inf, e)  # a flag assigned on this edge and tested later is followed (reaching definitions)
                 if any(o.bb in seen for o in opens):
                     good = False
                 for d in b.defs.get(0, []):
@@ -359,6 +359,7 @@ def rule_file_checkers(ctx):
     want = {'exists': {'File', 'Directory'}, 'is_file': {'File'}, 'is_directory': {'Directory'}, 'as_metadata': {'File', 'Directory'}, 'as_file': {'File'}, 'as_directory': {'Directory'}}
     table = F.enum_table(OR) or {}
     n7 = 0
+    helper_pos = {}  # body id of an OpenRead helper -> variants for which it answers positively (as evaluated, F7)
     for name, w in want.items():
         b = F.body_by_path(OR + '::' + name)
         if b is None:
@@ -378,6 +379,7 @@ def rule_file_checkers(ctx):
         if und:
             R.undecided('F7-openread', OR + '::' + name, 'cannot evaluate per variant', ctx.where(b), props=P)
         else:
+            helper_pos[b.id] = frozenset(got)
             R.ob('F7-openread', OR + '::' + name, got == w, 'OpenRead::%s answers positively exactly for %s' % (name, sorted(w)) if got == w else 'OpenRead::%s answers positively for %s, expected %s' % (name, sorted(got), sorted(w)), ctx.where(b), props=P)
     R.floor('F7', 'OpenRead helpers', n7, 4, props=P)
     nb = F.body_by_path(OR + '::new')
@@ -414,6 +416,19 @@ def rule_file_checkers(ctx):
                     if gd is not None and gd.kind == 'enum' and gd.extra == OR:
                         vs = gd.variants()
                         return vs is not None and v not in vs
+                    # the same test through an OpenRead helper on the reader: `r.as_file()` is Some / `r.is_directory()` is true exactly for
+                    # the variants established by F7
+                    if gd is not None:
+                        for sc in gd.subject_calls():
+                            cb_ = F.callee_body(sc)
+                            if cb_ is not None and cb_.id in helper_pos:
+                                pos = None
+                                if gd.kind == 'bool' and gd.truth() is not None:
+                                    pos = gd.truth()
+                                elif gd.kind == 'enum' and gd.variants() in (frozenset(['Some']), frozenset(['None'])):
+                                    pos = gd.variants() == frozenset(['Some'])
+                                if pos is not None:
+                                    return (v in helper_pos[cb_.id]) != pos
                 return False
             seen = hb.reach([0], avoid=ctx.both(ctx.infeasible(hb), av))
             res[v] = sorted({hb.calls[x].name for x in seen if not isinstance(x, tuple) and x in hb.calls and hb.calls[x].name.startswith('hash_')})
